@@ -31,6 +31,10 @@ def main():
     rc0, out0 = demo(d)
     res["demo_without_change"] = {"exit": rc0, "tail": out0[-200:]}
     ap = sh(f"git -C {WT} apply {os.path.join(d, 'patch.diff')}")
+    if ap.returncode != 0:  # the tree has moved on (fix: commits): try a 3-way merge of the change
+        ap = sh(f"git -C {WT} apply -3 {os.path.join(d, 'patch.diff')}")
+        sh(f"git -C {WT} reset -q")
+        res["patch_applied_with_3way_merge"] = ap.returncode == 0
     if ap.returncode != 0:
         print("PATCH DOES NOT APPLY:", ap.stderr[:300]); sys.exit(2)
     try:
@@ -38,7 +42,7 @@ def main():
             sh(regen)
         rc1, out1 = demo(d)
         res["demo_with_change"] = {"exit": rc1, "tail": out1[-300:]}
-        ck = subprocess.run(["./check", pid], capture_output=True, text=True, cwd=HERE, env=dict(os.environ, PYVC_REPO=WT, PYVC_EVIDENCE_DIR="/tmp/pyvc_seeded_evidence", PYVC_REPLAY_DIR="/tmp/pyvc_seeded_replays"), timeout=3000)
+        ck = subprocess.run(["./check", pid], capture_output=True, text=True, cwd=HERE, env=dict(os.environ, PYVC_REPO=WT, PYVC_EVIDENCE_DIR="/tmp/pyvc_seeded_evidence_" + os.path.basename(WT), PYVC_REPLAY_DIR="/tmp/pyvc_seeded_replays_" + os.path.basename(WT)), timeout=3000)
         lines = [l for l in ck.stdout.splitlines() if l.startswith(("VIOLATION", "UNDECIDED", "CHECKER-ERROR", "KNOWN-FINDING", "   failed obligation"))]
         res["check"] = {"cmd": f"PYVC_REPO=<patched checkout> ./check {pid}", "exit": ck.returncode, "lines": [l[:300] for l in lines][:12]}
     finally:
